@@ -1,4 +1,4 @@
 From Coq Require Import Extraction ExtrOcamlBasic.
 From PP Require Import B64.Base64Defs Docenc.DocencDefs.
 Extraction "model.ml" Z.of_N Z.to_N Z.of_nat Z.to_nat N.of_nat N.to_nat N.add N.mul Z.opp
-  base64_encode base64_decode rfc4648 strip_padding decode_tool encode_tool.
+  base64_encode base64_decode rfc4648 strip_padding decode_tool encode_tool parse_range.
